@@ -192,7 +192,15 @@ func genC06(t *rapid.T) C06Case {
 			if al := lv.Visible[key].Spec.Aliases; len(al) > 0 && rapid.IntRange(0, 3).Draw(t, "usealias") > 0 {
 				key = rapid.SampledFrom(al).Draw(t, "aliaskey")
 			}
-			c.Plan = append(c.Plan, PlanItem{Occ: genOcc(t, spec, lv, key)})
+			oc := genOcc(t, spec, lv, key)
+			// Bundling + Pass/Warn: an undeclared letter may lead the bundle that names the option (`-Qr`); the token is
+			// handed on as a whole and the declared letter behind it is still given on the command line
+			if spec.Mode == ModeBundling && lv.UnknownMode != UnkFail && !lv.RequireOrder && oc.Dash == "-" && oc.Attach != "sd" && len([]rune(oc.Written)) == 1 && oc.Written != "-" && rapid.IntRange(0, 2).Draw(t, "unklead") == 0 {
+				if k2, c2 := resolve(lv, "Q"); k2 == "" && len(c2) == 0 {
+					oc.Lead = "Q"
+				}
+			}
+			c.Plan = append(c.Plan, PlanItem{Occ: oc})
 		case r < 8:
 			w := rapid.SampledFrom([]string{"foo", "bar", "baz", "", "k=v", "1"}).Draw(t, "word")
 			if _, isCmd := lv.Children[w]; isCmd {
@@ -276,6 +284,23 @@ func checkC06(c C06Case, st *evid.Stats) error {
 		if va != vb {
 			return failf("alias spelling differs from primary-name spelling at %s: %+v vs %+v (argv %s vs %s)", strings.ReplaceAll(k, "\x1f", ":"), va, vb, q(argvA), q(argvB))
 		}
+	}
+	// a bundle led by an undeclared letter is handed on as a whole (Pass/Warn): only the first spelling has it
+	leadToks := map[string]bool{}
+	for _, it := range c.Plan {
+		if it.Occ != nil && it.Occ.Lead != "" {
+			leadToks["-"+it.Occ.Lead] = true
+		}
+	}
+	if len(leadToks) > 0 {
+		st.Class("bundle-led-by-an-undeclared-letter")
+		var kept []string
+		for _, r := range A.Remaining {
+			if len(r) < 2 || !leadToks[r[:2]] {
+				kept = append(kept, r)
+			}
+		}
+		A.Remaining = kept
 	}
 	if !eqStrs(A.Remaining, B.Remaining) {
 		return failf("alias vs primary spelling: remaining %s vs %s", q(A.Remaining), q(B.Remaining))
